@@ -3267,7 +3267,7 @@ class Parameters:
             with _batch_call_watchers(self_.self_or_cls, enable=watcher.queued, run=False):
                 self_._execute_watcher(watcher, (event,))
 
-    def _batch_call_watchers(self_):
+    def _batch_call_watchers(self_, _again=True):
         """
         Batch call a set of watchers based on the parameter value
         settings in kwargs using the queued Event and watcher objects.
@@ -3337,14 +3337,17 @@ class Parameters:
                         self_._execute_watcher(watcher, events)
         except BaseException:
             # A watcher failed: whatever was queued during this flush is
-            # delivered now, not by some unrelated later assignment (and
-            # dropped if that fails as well).
+            # delivered now, not by some unrelated later assignment - once:
+            # if that fails as well the rest is dropped (a failing watcher
+            # stops a cascade of queued watchers).
             if not self_._BATCH_WATCH and self_._events:
-                try:
-                    self_._batch_call_watchers()
-                except Exception:
-                    self_._events = []
-                    self_._state_watchers = []
+                if _again:
+                    try:
+                        self_._batch_call_watchers(_again=False)
+                    except Exception:
+                        pass
+                self_._events = []
+                self_._state_watchers = []
             raise
     # Please update the docstring with better description and examples
     # I've (MarcSkovMadsen) not been able to understand this. Its probably because I lack context.
